@@ -667,8 +667,8 @@ func TestVerifC21_Enumerate(t *testing.T) {
 			complete = false
 		}
 	}
-	verifkit.Note("schedules_per_case", counts)
-	verifkit.Note("schedules_total", total)
+	verifkit.Note(fmt.Sprintf("shard%d_schedules_per_case", shard), counts)
+	verifkit.Note(fmt.Sprintf("shard%d_schedules_total", shard), total)
 	verifkit.Note("max_verifiers_enumerated", maxV)
 	if complete && verifkit.Tier() == "thorough" {
 		verifkit.Exhaustive()
